@@ -490,6 +490,9 @@ func (bal *BalanceGslb) randomSelectExclude(excludeCluster *SubCluster) (*SubClu
 }
 
 func (bal *BalanceGslb) SubClusterNum() int {
+	bal.lock.Lock()
+	defer bal.lock.Unlock()
+
 	return len(bal.subClusters)
 }
 
